@@ -1,4 +1,385 @@
-import SafeC.Models.Copy
-/-! Property theorems for C15 (see DESIGN.md §4). -/
+import SafeC.Proofs.ConvCodec
+import SafeC.Proofs.ConvWrap
+import SafeC.Proofs.ConvLibc
+/-!
+# C15 — multibyte and wide conversions agree with the C library and round-trip
+
+English: on valid input in the current locale the six converters deliver the same converted characters and the same
+count as the corresponding standard function limited to the space available; a wide string converted to multibyte and
+back is unchanged; the size-query form returns the length the converting form then needs; invalid sequences are
+reported as errors with dest cleared and the conversion state usable again.
+
+Formal reading (model: `SafeC/Models/Conv.lean`; `Libc.*` = glibc 2.36 as measured, a trusted-base item):
+* `Delivered o cells dmax r term`: EOK, `*retvalp = r.ret`, no handler call, no store outside `dest[0..dmax)`, no fault,
+  `dest[0..r.ret) = r.out[0..r.ret)` and (`term`) `dest[r.ret] = 0`, where `r` is the result of the libc function
+  called with the limit the wrapper hands it (`libcLen`: `len` in the tree as it is, `min(len, dmax)` when repaired).
+* `Reported o cells dmax slack`: handler called exactly once with the code returned, `dest[0] = 0`, all `dmax` cells 0
+  in the slack build.
+* `SaneS a cells mem`: no argument precondition violated and the caller's `dmax` is true.
+All theorems quantify over every configuration (`cfg`: slack build, locale, repaired or not), every dest content and
+size, every source memory, every `len`/`dmax` — no bound on lengths.
+-/
 namespace SafeC.Props.C15
+open SafeC.Conv SafeC.Gen
+
+/-- the documented preconditions hold and the caller's `dmax` is true -/
+structure SaneS (a : SArgs) (cells mem : List Nat) : Prop where
+  rv : a.retvalNull = false
+  sp : a.srcpNull = false
+  ps : a.psNull = false
+  al : a.alias = false
+  dest : a.dest = some cells
+  src : a.src = some mem
+  dpos : 0 < a.dmax
+  dmaxle : a.dmax ≤ RSIZE_MAX_WSTR
+  lenle : a.len ≤ RSIZE_MAX_WSTR
+  bos : a.bos = none
+  truthful : a.dmax ≤ cells.length
+
+example : SaneS { dest := some [7, 7, 7], dmax := 3, src := some [0x61, 0xE2, 0x82, 0xAC, 0], len := 2 } [7, 7, 7] [0x61, 0xE2, 0x82, 0xAC, 0] :=
+  ⟨rfl, rfl, rfl, rfl, rfl, rfl, by decide, by decide, by decide, rfl, by decide⟩
+
+/-! ## 1. the codecs round-trip (all strings, both locales) -/
+
+/-- decoding the encoding of ANY list of encodable wide characters gives the list back (C.UTF-8: 31-bit values except
+surrogates, 1..6 bytes; C: 7-bit) -/
+theorem codec_roundtrip (loc : Locale) (ws bs : List Nat) (h : Libc.encodeAll loc ws = some bs) :
+    Libc.decodeAll loc bs.length bs = some ws :=
+  Libc.decodeAll_encodeAll loc ws bs h bs.length (Nat.le_refl _)
+
+example : Libc.encodeAll .UTF8 [0x61, 0x20AC, 0x7FFFFFFF] = some [0x61, 0xE2, 0x82, 0xAC, 0xFD, 0xBF, 0xBF, 0xBF, 0xBF, 0xBF] := by decide
+
+/-- one character: the decoder applied to an encoding followed by anything returns the character and its length -/
+theorem decode_of_encode (loc : Locale) (c : Nat) (e tail : List Nat) (h : Libc.enc loc c = some e) :
+    Libc.body loc (e ++ tail) = .ok c e.length := Libc.body_enc loc c e tail h
+
+/-! ## 2. wrapper = libc limited to the space available; failures reported and cleared -/
+
+private theorem entryW_none (cfg : Cfg) (a : SArgs) (clr : Bool) (d : D) {cells mem} (hs : SaneS a cells mem) :
+    entryW cfg a clr d = none := by
+  have h1 : ¬ a.dmax = 0 := by have := hs.dpos; omega
+  have h2 : (decide (a.dmax > RSIZE_MAX_WSTR) || decide (a.len > RSIZE_MAX_WSTR)) = false := by
+    have := hs.dmaxle; have := hs.lenle; simp; omega
+  simp [entryW, h1, hs.bos, h2]
+
+private theorem entryB_none (cfg : Cfg) (a : SArgs) (d : D) {cells mem} (hs : SaneS a cells mem) :
+    entryB cfg a d = none := by
+  have h1 : ¬ a.dmax = 0 := by have := hs.dpos; omega
+  have h2 : (decide (a.dmax > RSIZE_MAX_WSTR) || decide (a.len > RSIZE_MAX_WSTR)) = false := by
+    have := hs.dmaxle; have := hs.lenle; simp; omega
+  simp [entryB, h1, hs.bos, h2]
+
+theorem mbstowcs_s_eq (cfg : Cfg) (a : SArgs) {cells mem} (hs : SaneS a cells mem) :
+    mbstowcs_s cfg a =
+      { tailW cfg a (Libc.mbstowcs cfg.loc false mem (libcLen cfg a)) 0
+          (fun _ => ((Libc.mbstowcs cfg.loc true mem (libcLen cfg a)).ret, (Libc.mbstowcs cfg.loc true mem (libcLen cfg a)).eilseq))
+        with src := some 0, st := [] } := by
+  simp [mbstowcs_s, hs.rv, hs.src, mkD, hs.dest, entryW_none cfg a true _ hs, hs.al]
+
+theorem mbsrtowcs_s_eq (cfg : Cfg) (a : SArgs) {cells mem} (hs : SaneS a cells mem) :
+    mbsrtowcs_s cfg a = tailW cfg a (Libc.mbsrtowcs cfg.loc false mem (libcLen cfg a) a.ps) a.errno0
+      (mbsrRequery cfg a mem (libcLen cfg a) (Libc.mbsrtowcs cfg.loc false mem (libcLen cfg a) a.ps)) := by
+  simp [mbsrtowcs_s, hs.rv, hs.ps, hs.sp, hs.src, mkD, hs.dest, entryW_none cfg a false _ hs, hs.al]
+
+theorem wcstombs_s_eq (cfg : Cfg) (a : SArgs) {cells mem} (hs : SaneS a cells mem) :
+    wcstombs_s cfg a = { tailB cfg a (Libc.wcstombs cfg.loc false mem (libcLen cfg a)) true with src := some 0 } := by
+  simp [wcstombs_s, hs.rv, hs.src, mkD, hs.dest, entryB_none cfg a _ hs, hs.al]
+
+theorem wcsrtombs_s_eq (cfg : Cfg) (a : SArgs) {cells mem} (hs : SaneS a cells mem) :
+    wcsrtombs_s cfg a = tailB cfg a (Libc.wcsrtombs cfg.loc false mem (libcLen cfg a)) cfg.fx.term := by
+  simp [wcsrtombs_s, hs.rv, hs.ps, hs.sp, hs.src, mkD, hs.dest, entryB_none cfg a _ hs, hs.al]
+
+
+/-- what the wrapper hands libc never exceeds `len`; with the clamp repair it never exceeds `dmax` either -/
+theorem libcLen_le_dmax_of_clamp (cfg : Cfg) (a : SArgs) {cells mem} (hs : SaneS a cells mem) (h : cfg.fx.clamp = true) :
+    libcLen cfg a ≤ a.dmax := by
+  unfold libcLen; simp only [h, hs.dest, Option.isSome_some, Bool.true_and, decide_eq_true_eq]
+  split <;> omega
+
+theorem libcLen_eq_of_le (cfg : Cfg) (a : SArgs) (h : a.len ≤ a.dmax) : libcLen cfg a = a.len := by
+  unfold libcLen
+  have : ¬ a.len > a.dmax := by omega
+  simp [this]
+
+/-- **mbstowcs_s = mbstowcs limited to the space available.** Every configuration, every source, len, dmax, dest:
+if the count libc returns for the limit it is given leaves room for the terminator, the call returns EOK with that
+count, exactly libc's characters, a terminator, and nothing stored outside `dest[0..dmax)`. -/
+theorem mbstowcs_s_C15 (cfg : Cfg) (a : SArgs) {cells mem} (hs : SaneS a cells mem)
+    (hfit : (Libc.mbstowcs cfg.loc false mem (libcLen cfg a)).ret < a.dmax) :
+    Delivered (mbstowcs_s cfg a) cells a.dmax (Libc.mbstowcs cfg.loc false mem (libcLen cfg a)) true := by
+  rw [mbstowcs_s_eq cfg a hs]
+  have hsh := Libc.mbsrtowcs_shape cfg.loc mem (libcLen cfg a) []
+  have hne : (Libc.mbstowcs cfg.loc false mem (libcLen cfg a)).ret ≠ SIZE_MAX := by
+    have := hs.dmaxle; simp only [RSIZE_MAX_WSTR, SIZE_MAX] at *; omega
+  have hsh' := hsh.resolve_left hne
+  obtain ⟨⟨h1, h2, h3, h4⟩, _, _⟩ := tailW_ok cfg a _ 0 _ cells hs.dest hs.truthful hfit hsh'.1 hsh'.2
+  exact ⟨h1, h2, h3, h4⟩
+
+/-- otherwise (libc's count does not fit, or libc reports an illegal sequence): handler once with the code returned,
+dest cleared, `*retvalp` = libc's return; with the result-code repair the code is EILSEQ resp. ESNOSPC -/
+theorem mbstowcs_s_reported (cfg : Cfg) (a : SArgs) {cells mem} (hs : SaneS a cells mem)
+    (hfit : ¬ (Libc.mbstowcs cfg.loc false mem (libcLen cfg a)).ret < a.dmax) :
+    Reported (mbstowcs_s cfg a) cells a.dmax cfg.slack ∧
+      (mbstowcs_s cfg a).retval = some (Libc.mbstowcs cfg.loc false mem (libcLen cfg a)).ret ∧
+      (cfg.fx.rc = true → (mbstowcs_s cfg a).ret =
+        if (Libc.mbstowcs cfg.loc false mem (libcLen cfg a)).ret = SIZE_MAX then EILSEQ else ESNOSPC) := by
+  rw [mbstowcs_s_eq cfg a hs]
+  obtain ⟨⟨h1, h2⟩, h3, h4⟩ := tailW_err cfg a _ 0 _ cells hs.dest hs.dpos hs.truthful hfit
+  exact ⟨⟨h1, h2⟩, h3, h4⟩
+
+/-- **mbsrtowcs_s = mbsrtowcs limited to the space available**, including `*srcp` and `*ps` afterwards -/
+theorem mbsrtowcs_s_C15 (cfg : Cfg) (a : SArgs) {cells mem} (hs : SaneS a cells mem)
+    (hfit : (Libc.mbsrtowcs cfg.loc false mem (libcLen cfg a) a.ps).ret < a.dmax) :
+    Delivered (mbsrtowcs_s cfg a) cells a.dmax (Libc.mbsrtowcs cfg.loc false mem (libcLen cfg a) a.ps) true ∧
+      (mbsrtowcs_s cfg a).src = (Libc.mbsrtowcs cfg.loc false mem (libcLen cfg a) a.ps).src ∧
+      (mbsrtowcs_s cfg a).st = (Libc.mbsrtowcs cfg.loc false mem (libcLen cfg a) a.ps).st := by
+  rw [mbsrtowcs_s_eq cfg a hs]
+  have hsh := Libc.mbsrtowcs_shape cfg.loc mem (libcLen cfg a) a.ps
+  have hne : (Libc.mbsrtowcs cfg.loc false mem (libcLen cfg a) a.ps).ret ≠ SIZE_MAX := by
+    have := hs.dmaxle; simp only [RSIZE_MAX_WSTR, SIZE_MAX] at *; omega
+  have hsh' := hsh.resolve_left hne
+  exact tailW_ok cfg a _ _ _ cells hs.dest hs.truthful hfit hsh'.1 hsh'.2
+
+theorem mbsrtowcs_s_reported (cfg : Cfg) (a : SArgs) {cells mem} (hs : SaneS a cells mem)
+    (hfit : ¬ (Libc.mbsrtowcs cfg.loc false mem (libcLen cfg a) a.ps).ret < a.dmax) :
+    Reported (mbsrtowcs_s cfg a) cells a.dmax cfg.slack ∧
+      (mbsrtowcs_s cfg a).retval = some (Libc.mbsrtowcs cfg.loc false mem (libcLen cfg a) a.ps).ret ∧
+      (cfg.fx.rc = true → (mbsrtowcs_s cfg a).ret =
+        if (Libc.mbsrtowcs cfg.loc false mem (libcLen cfg a) a.ps).ret = SIZE_MAX then EILSEQ else ESNOSPC) := by
+  rw [mbsrtowcs_s_eq cfg a hs]
+  exact tailW_err cfg a _ _ _ cells hs.dest hs.dpos hs.truthful hfit
+
+/-- **wcstombs_s = wcstombs limited to the space available** (a count of 0 only with the `zero` repair) -/
+theorem wcstombs_s_C15 (cfg : Cfg) (a : SArgs) {cells mem} (hs : SaneS a cells mem)
+    (hfit : (Libc.wcstombs cfg.loc false mem (libcLen cfg a)).ret < a.dmax)
+    (hpos : 0 < (Libc.wcstombs cfg.loc false mem (libcLen cfg a)).ret ∨ cfg.fx.zero = true) :
+    Delivered (wcstombs_s cfg a) cells a.dmax (Libc.wcstombs cfg.loc false mem (libcLen cfg a)) true := by
+  rw [wcstombs_s_eq cfg a hs]
+  have hsh := Libc.wcsrtombs_shape cfg.loc mem (libcLen cfg a)
+  have hne : (Libc.wcstombs cfg.loc false mem (libcLen cfg a)).ret ≠ SIZE_MAX := by
+    have := hs.dmaxle; simp only [RSIZE_MAX_WSTR, SIZE_MAX] at *; omega
+  have hsh' := hsh.resolve_left hne
+  obtain ⟨⟨h1, h2, h3, h4⟩, _⟩ := tailB_ok cfg a _ true cells hs.dest hs.truthful hfit hpos hsh'.1 hsh'.2
+  refine ⟨h1, h2, h3, ?_⟩
+  simpa using h4
+
+theorem wcstombs_s_reported (cfg : Cfg) (a : SArgs) {cells mem} (hs : SaneS a cells mem)
+    (hfit : ¬ ((0 < (Libc.wcstombs cfg.loc false mem (libcLen cfg a)).ret ∨ cfg.fx.zero = true) ∧
+               (Libc.wcstombs cfg.loc false mem (libcLen cfg a)).ret < a.dmax)) :
+    Reported (wcstombs_s cfg a) cells a.dmax cfg.slack ∧
+      (wcstombs_s cfg a).retval = some (Libc.wcstombs cfg.loc false mem (libcLen cfg a)).ret ∧
+      (cfg.fx.rc = true → (wcstombs_s cfg a).ret =
+        if (Libc.wcstombs cfg.loc false mem (libcLen cfg a)).ret = SIZE_MAX then EILSEQ else ESNOSPC) := by
+  rw [wcstombs_s_eq cfg a hs]
+  obtain ⟨⟨h1, h2⟩, h3, h4⟩ := tailB_err cfg a _ true cells hs.dest hs.dpos hs.truthful hfit
+  exact ⟨⟨h1, h2⟩, h3, h4⟩
+
+/-- **wcsrtombs_s = wcsrtombs limited to the space available**, including `*srcp`; the terminator is guaranteed in the
+slack build, and in the other build only with the `term` repair (see `wcsrtombs_s_terminated_witness`) -/
+theorem wcsrtombs_s_C15 (cfg : Cfg) (a : SArgs) {cells mem} (hs : SaneS a cells mem)
+    (hfit : (Libc.wcsrtombs cfg.loc false mem (libcLen cfg a)).ret < a.dmax)
+    (hpos : 0 < (Libc.wcsrtombs cfg.loc false mem (libcLen cfg a)).ret ∨ cfg.fx.zero = true) :
+    Delivered (wcsrtombs_s cfg a) cells a.dmax (Libc.wcsrtombs cfg.loc false mem (libcLen cfg a)) (cfg.slack || cfg.fx.term) ∧
+      (wcsrtombs_s cfg a).src = (Libc.wcsrtombs cfg.loc false mem (libcLen cfg a)).src := by
+  rw [wcsrtombs_s_eq cfg a hs]
+  have hsh := Libc.wcsrtombs_shape cfg.loc mem (libcLen cfg a)
+  have hne : (Libc.wcsrtombs cfg.loc false mem (libcLen cfg a)).ret ≠ SIZE_MAX := by
+    have := hs.dmaxle; simp only [RSIZE_MAX_WSTR, SIZE_MAX] at *; omega
+  have hsh' := hsh.resolve_left hne
+  exact tailB_ok cfg a _ _ cells hs.dest hs.truthful hfit hpos hsh'.1 hsh'.2
+
+theorem wcsrtombs_s_reported (cfg : Cfg) (a : SArgs) {cells mem} (hs : SaneS a cells mem)
+    (hfit : ¬ ((0 < (Libc.wcsrtombs cfg.loc false mem (libcLen cfg a)).ret ∨ cfg.fx.zero = true) ∧
+               (Libc.wcsrtombs cfg.loc false mem (libcLen cfg a)).ret < a.dmax)) :
+    Reported (wcsrtombs_s cfg a) cells a.dmax cfg.slack ∧
+      (wcsrtombs_s cfg a).retval = some (Libc.wcsrtombs cfg.loc false mem (libcLen cfg a)).ret ∧
+      (cfg.fx.rc = true → (wcsrtombs_s cfg a).ret =
+        if (Libc.wcsrtombs cfg.loc false mem (libcLen cfg a)).ret = SIZE_MAX then EILSEQ else ESNOSPC) := by
+  rw [wcsrtombs_s_eq cfg a hs]
+  exact tailB_err cfg a _ _ cells hs.dest hs.dpos hs.truthful hfit
+
+/-! ## 3. no store outside `dest[0..dmax)` -/
+
+/- Full statement (false of the tree as it is): for every sane call, `NoOverflow (f cfg a) a.dmax`. -/
+
+/-- whenever the limit handed to libc is within `dmax`, on EVERY path (success, no space, illegal sequence) -/
+theorem string_converters_no_write_outside (cfg : Cfg) (a : SArgs) {cells mem} (hs : SaneS a cells mem)
+    (h : libcLen cfg a ≤ a.dmax) :
+    NoOverflow (mbstowcs_s cfg a) a.dmax ∧ NoOverflow (mbsrtowcs_s cfg a) a.dmax ∧
+    NoOverflow (wcstombs_s cfg a) a.dmax ∧ NoOverflow (wcsrtombs_s cfg a) a.dmax := by
+  have m1 := Libc.mbsrtowcs_out_le cfg.loc mem (libcLen cfg a) []
+  have m2 := Libc.mbsrtowcs_out_le cfg.loc mem (libcLen cfg a) a.ps
+  have w1 := Libc.wcsrtombs_out_le cfg.loc mem (libcLen cfg a)
+  refine ⟨?_, ?_, ?_, ?_⟩
+  · rw [mbstowcs_s_eq cfg a hs]
+    exact tailW_safe cfg a _ 0 _ cells hs.dest hs.dpos hs.truthful (by unfold Libc.mbstowcs; omega)
+  · rw [mbsrtowcs_s_eq cfg a hs]
+    exact tailW_safe cfg a _ _ _ cells hs.dest hs.dpos hs.truthful (by omega)
+  · rw [wcstombs_s_eq cfg a hs]
+    exact tailB_safe cfg a _ true cells hs.dest hs.dpos hs.truthful (by unfold Libc.wcstombs; omega)
+  · rw [wcsrtombs_s_eq cfg a hs]
+    exact tailB_safe cfg a _ _ cells hs.dest hs.dpos hs.truthful (by omega)
+
+/-- the repaired code (fixes/wchar-1-clamp.diff): full statement -/
+theorem string_converters_no_write_outside_fixed (cfg : Cfg) (a : SArgs) {cells mem} (hs : SaneS a cells mem)
+    (hfx : cfg.fx.clamp = true) :
+    NoOverflow (mbstowcs_s cfg a) a.dmax ∧ NoOverflow (mbsrtowcs_s cfg a) a.dmax ∧
+    NoOverflow (wcstombs_s cfg a) a.dmax ∧ NoOverflow (wcsrtombs_s cfg a) a.dmax :=
+  string_converters_no_write_outside cfg a hs (libcLen_le_dmax_of_clamp cfg a hs hfx)
+
+/-- the tree as it is: under the hypothesis the proof forces, `len ≤ dmax` -/
+theorem string_converters_no_write_outside_partial (cfg : Cfg) (a : SArgs) {cells mem} (hs : SaneS a cells mem)
+    (hlen : a.len ≤ a.dmax) :
+    NoOverflow (mbstowcs_s cfg a) a.dmax ∧ NoOverflow (mbsrtowcs_s cfg a) a.dmax ∧
+    NoOverflow (wcstombs_s cfg a) a.dmax ∧ NoOverflow (wcsrtombs_s cfg a) a.dmax :=
+  string_converters_no_write_outside cfg a hs (by rw [libcLen_eq_of_le cfg a hlen]; exact hlen)
+
+/-- `mbstowcs_s(&n, dest[1], 1, "a", 2)`: libc stores 'a' and the terminator, one cell beyond dmax = the object: fault -/
+theorem string_converters_no_write_outside_witness :
+    ¬ NoOverflow (mbstowcs_s { slack := true, loc := .UTF8, fx := unrepaired }
+        { dest := some [0x5A], dmax := 1, src := some [0x61, 0], len := 2 }) 1 := by
+  intro ⟨d, hd, hf, _⟩
+  have : (mbstowcs_s { slack := true, loc := .UTF8, fx := unrepaired }
+        { dest := some [0x5A], dmax := 1, src := some [0x61, 0], len := 2 }).dest.map (·.fault) = some true := by decide
+  rw [hd] at this
+  simp [hf] at this
+
+
+/-! ## 4. single characters -/
+
+/-- sane arguments of wcrtomb_s / wctomb_s -/
+structure SaneC (a : CArgs) (cells : List Nat) : Prop where
+  rv : a.retvalNull = false
+  ps : a.psNull = false
+  dest : a.dest = some cells
+  dpos : 0 < a.dmax
+  dmaxle : a.dmax ≤ RSIZE_MAX_WSTR
+  bos : a.bos = none
+  truthful : a.dmax ≤ cells.length
+
+example : SaneC { dest := some [1, 2, 3, 4], dmax := 4, wc := 0x20AC } [1, 2, 3, 4] := ⟨rfl, rfl, rfl, by decide, by decide, rfl, by decide⟩
+
+private theorem entryC_none (a : CArgs) {cells} (hs : SaneC a cells) : entryC a = none := by
+  have h1 : ¬ a.dmax = 0 := by have := hs.dpos; omega
+  have h2 : ¬ a.dmax > RSIZE_MAX_WSTR := by have := hs.dmaxle; omega
+  simp [entryC, hs.dest, h1, hs.bos, h2]
+
+/-- **wcrtomb_s = wcrtomb when the character fits**: for every wide character (valid or not), locale, dmax: if libc's
+byte count is < dmax the call returns EOK, that count, exactly libc's bytes followed by a terminator, nothing stored
+outside `dest[0..dmax)`; in every other case the handler is called once with the code returned and dest is cleared -/
+theorem wcrtomb_s_C15 (cfg : Cfg) (a : CArgs) {cells} (hs : SaneC a cells) :
+    let bs := (Libc.wcrtomb cfg.loc false a.wc).1
+    let n := (Libc.wcrtomb cfg.loc false a.wc).2.1
+    (n < a.dmax → Delivered (wcrtomb_s cfg a) cells a.dmax ⟨bs, n, none, [], false⟩ true) ∧
+    (¬ n < a.dmax → Reported (wcrtomb_s cfg a) cells a.dmax cfg.slack ∧ (wcrtomb_s cfg a).retval = some n ∧
+      (cfg.fx.rc = true → (wcrtomb_s cfg a).ret = if n = SIZE_MAX then EILSEQ else ESNOSPC)) := by
+  intro bs n
+  have hbn : n = SIZE_MAX ∨ bs.length = n := by
+    show (Libc.wcrtomb cfg.loc false a.wc).2.1 = SIZE_MAX ∨ (Libc.wcrtomb cfg.loc false a.wc).1.length = (Libc.wcrtomb cfg.loc false a.wc).2.1
+    simp only [Libc.wcrtomb, Bool.false_eq_true, ↓reduceIte]
+    split
+    · right; rfl
+    · split
+      · left; rfl
+      · right; rfl
+  have hmk : a.dest.map (fun c => ({ cells := c } : D)) = some { cells := cells } := by simp [hs.dest]
+  have hd : a.dest.isNone = false := by simp [hs.dest]
+  constructor
+  · intro hlt
+    have hne : n ≠ SIZE_MAX := by have := hs.dmaxle; simp only [RSIZE_MAX_WSTR, SIZE_MAX] at *; omega
+    have hlen : bs.length = n := hbn.resolve_left hne
+    have hlt' : (Libc.wcrtomb cfg.loc false a.wc).2.1 < a.dmax := hlt
+    obtain ⟨k, hk, hk1, hk2⟩ : ∃ k, (if cfg.slack then a.dmax - n else 1) = k ∧ 1 ≤ k ∧ n + k ≤ a.dmax :=
+      ⟨_, rfl, by split <;> omega, by split <;> omega⟩
+    have key := stored_then_zeroed cells bs n k (by omega) (by omega) hk1 (by have := hs.truthful; omega)
+    have hdest : (wcrtomb_s cfg a).dest = some ((({ cells := cells } : D).write 0 bs).zero n k) := by
+      rw [← hk]
+      cases hsl : cfg.slack <;> cases hst : cfg.fx.stage <;>
+        simp [wcrtomb_s, hs.rv, hs.ps, entryC_none a hs, hd, hmk, hlt', hsl, hst] <;> rfl
+    have hret : (wcrtomb_s cfg a).ret = EOK ∧ (wcrtomb_s cfg a).retval = some n ∧ (wcrtomb_s cfg a).ev = [] := by
+      cases hsl : cfg.slack <;> cases hst : cfg.fx.stage <;>
+        simp [wcrtomb_s, hs.rv, hs.ps, entryC_none a hs, hd, hmk, hlt', hsl, hst] <;> rfl
+    have := key.2.1
+    exact ⟨hret.1, hret.2.1, hret.2.2, _, hdest, key.1, by omega, key.2.2.1, key.2.2.2.1,
+      fun _ => key.2.2.2.2 n (Nat.le_refl _) (by omega)⟩
+  · intro hlt
+    have hlt' : ¬ (Libc.wcrtomb cfg.loc false a.wc).2.1 < a.dmax := hlt
+    obtain ⟨w, hw⟩ : ∃ w : List Nat, (wcrtomb_s cfg a).dest = some (clearCells cfg.slack (({ cells := cells } : D).write 0 w) a.dmax) := by
+      cases hst : cfg.fx.stage
+      · exact ⟨bs, by simp [wcrtomb_s, hs.rv, hs.ps, entryC_none a hs, hd, hmk, hlt', hst]; rfl⟩
+      · exact ⟨[], by simp [wcrtomb_s, hs.rv, hs.ps, entryC_none a hs, hd, hmk, hlt', hst, D.write]⟩
+    have key := stored_then_cleared cfg.slack cells w a.dmax hs.dpos hs.truthful
+    have hev : (wcrtomb_s cfg a).ev = [(wcrtomb_s cfg a).ret] ∧ (wcrtomb_s cfg a).retval = some n := by
+      simp [wcrtomb_s, hs.rv, hs.ps, entryC_none a hs, hd, hmk, hlt']; rfl
+    refine ⟨⟨hev.1, _, hw, key.1, key.2.1, key.2.2⟩, hev.2, ?_⟩
+    intro hrc
+    simp [wcrtomb_s, hs.rv, hs.ps, entryC_none a hs, hd, hmk, hlt', hrc]; rfl
+
+/-! ## 5. what the tree as it is gets wrong: kernel-checked witnesses (each replayed on the real C by the check) -/
+
+/-- wcrtomb_s(dest[1], dmax = 1, U+0080): libc stores 2 bytes before the length is looked at -/
+theorem wcrtomb_s_no_write_outside_witness :
+    (wcrtomb_s { slack := true, loc := .UTF8, fx := unrepaired } { dest := some [0x50], dmax := 1, wc := 0x80 }).dest.map (·.fault) = some true := by
+  decide
+/-- repaired (fixes/wchar-2-stage.diff): the same call reports ESNOSPC without touching anything beyond dmax -/
+theorem wcrtomb_s_no_write_outside_fixed_example :
+    (wcrtomb_s { slack := true, loc := .UTF8, fx := allFixed } { dest := some [0x50], dmax := 1, wc := 0x80 }).dest.map (fun d => (d.fault, d.hi)) = some (false, 1) := by
+  decide
+theorem wctomb_s_no_write_outside_witness :
+    (wctomb_s { slack := true, loc := .UTF8, fx := unrepaired } { dest := some [0x50], dmax := 1, wc := 0x80 }).dest.map (·.fault) = some true := by
+  decide
+
+/-- mbsrtowcs_s("a" E2 82 "z", len = 2): libc fails inside the 3-byte character whose first two bytes it had consumed;
+the re-scan from 'z' succeeds and the function returns EOK (handler called with code 0) -/
+theorem mbsrtowcs_s_invalid_reported_witness :
+    let o := mbsrtowcs_s { slack := true, loc := .UTF8, fx := unrepaired }
+      { dest := some [9, 9, 9, 9, 9], dmax := 5, src := some [0x61, 0xE2, 0x82, 0x7A, 0], len := 2 }
+    o.ret = EOK ∧ o.retval = some SIZE_MAX ∧ o.ev = [0] ∧ o.st = [0xE2, 0x82] := by
+  decide
+/-- repaired (fixes/wchar-3-rc.diff): EILSEQ -/
+theorem mbsrtowcs_s_invalid_reported_fixed_example :
+    (mbsrtowcs_s { slack := true, loc := .UTF8, fx := allFixed }
+      { dest := some [9, 9, 9, 9, 9], dmax := 5, src := some [0x61, 0xE2, 0x82, 0x7A, 0], len := 2 }).ret = EILSEQ := by
+  decide
+
+/-- the conversion state is NOT initial after that failed call (glibc keeps the pending bytes; the wrapper passes
+them on) — in the repaired code too: known finding `mbsrtowcs_s-state-left-pending-after-error` -/
+theorem mbsrtowcs_s_state_usable_witness :
+    (mbsrtowcs_s { slack := true, loc := .UTF8, fx := allFixed }
+      { dest := some [9, 9], dmax := 2, src := some [0x41, 0], len := 1, ps := [0xE2] }).st ≠ [] := by
+  decide
+
+/-- size query with a stale errno: mbsrtowcs_s(&n, NULL, 0, &"ab", …) with errno = 34 on entry returns 34 -/
+theorem mbsrtowcs_s_query_code_witness :
+    (mbsrtowcs_s { slack := true, loc := .UTF8, fx := unrepaired }
+      { dest := none, dmax := 0, src := some [0x61, 0x62, 0], len := 0, errno0 := 34 }).ret = 34 := by
+  decide
+theorem mbsrtowcs_s_query_code_fixed_example :
+    let o := mbsrtowcs_s { slack := true, loc := .UTF8, fx := allFixed }
+      { dest := none, dmax := 0, src := some [0x61, 0x62, 0], len := 0, errno0 := 34 }
+    o.ret = EOK ∧ o.retval = some 2 := by
+  decide
+
+/-- wcstombs_s of the empty wide string: libc converts 0 bytes, which fit, yet ESNOSPC and a handler call -/
+theorem wcstombs_s_empty_witness :
+    let o := wcstombs_s { slack := true, loc := .UTF8, fx := unrepaired } { dest := some [0x50], dmax := 1, src := some [0], len := 1 }
+    o.ret = ESNOSPC ∧ o.ev = [ESNOSPC] := by
+  decide
+theorem wcstombs_s_empty_fixed_example :
+    let o := wcstombs_s { slack := true, loc := .UTF8, fx := allFixed } { dest := some [0x50], dmax := 1, src := some [0], len := 1 }
+    o.ret = EOK ∧ o.retval = some 0 ∧ o.dest.map (·.cells) = some [0] := by
+  decide
+
+/-- wcsrtombs_s without SAFECLIB_STR_NULL_SLACK, len = 2 = the converted length: EOK, dest[2] still holds 0x52 -/
+theorem wcsrtombs_s_terminated_witness :
+    let o := wcsrtombs_s { slack := false, loc := .UTF8, fx := unrepaired }
+      { dest := some [0x50, 0x51, 0x52, 0x53], dmax := 4, src := some [0x61, 0x62, 0], len := 2 }
+    o.ret = EOK ∧ o.dest.map (·.cells) = some [0x61, 0x62, 0x52, 0x53] := by
+  decide
+
+/-- mbstowcs_s(&n, NULL, 3, NULL, 3): the clearing store goes through the NULL dest -/
+theorem mbstowcs_s_null_src_witness :
+    (mbstowcs_s { slack := true, loc := .UTF8, fx := unrepaired } { dest := none, dmax := 3, src := none, len := 3 }).nullw = true := by
+  decide
+
 end SafeC.Props.C15
